@@ -8,12 +8,13 @@ on the protocol files perturbs the schedule. Unique tags make the history unambi
 
 from __future__ import annotations
 
+import contextlib
 import itertools
 import queue
 import threading
 import time
 
-from lib import e5ref, sched, stuck, vtime, wire
+from lib import e5ref, sched, steer, stuck, vtime, wire
 
 PROPERTY = "C06"
 LEVEL = "exploration"
@@ -23,11 +24,14 @@ RULE = ("histories of 2-8 requester threads x 1-6 tagged S2F25 requests against 
         "and policy; non-trivial when at least two requests were outstanding simultaneously. SECS-I: histories of 2-6 "
         "requester threads with single- and multi-block S2F25 requests all outstanding together over a scripted line peer, then "
         "replies and unsolicited primaries (single/multi-block) in order / reversed / shuffled / with the blocks of different "
-        "messages interleaved / partly dropped, over 1-3 line close/reopen cycles, both device roles; plus (HSMS): replies with the abort function S2F0; a partial frame behind a complete message in one segment before the link loss; a handler that is still running while the link is lost (peer close or disable + enable) and a new link brings 2-10 messages")
+        "messages interleaved / partly dropped, over 1-3 line close/reopen cycles, both device roles; plus (HSMS): replies with the abort function S2F0; a partial frame behind a complete message in one segment before the link loss; a handler that is still running while the link is lost (peer close or disable + enable) and a new link brings 2-10 messages; transaction counters that start just below the 32-bit wrap or a carry")
 ASSUMPTIONS = ["SECS-I histories keep the two directions in separate phases (only one side transmits at a time, as C17 assumes); "
                "line contention is not produced",
                "a reply that arrives after its requester timed out may be handed to the application as an ordinary message or be "
-               "discarded; it must only never reach another requester", "wrap-around of the 32-bit transaction counter is not reached"]
+               "discarded; it must only never reach another requester",
+               "the start value of the transaction counter (drawn by the library with random.randint) is chosen by the harness in 40 % of "
+               "the histories so that the requests cross the 32-bit wrap or an 8/16/24/31-bit carry; a tree that draws it otherwise is "
+               "not steered (counted)"]
 LEVEL_TEXT = ("Runtime history checking (unique tags, linear-time) of the real request/reply routing and delivery path under "
               "concurrent callers, hostile reply orders, reconnects and injected yields; interleavings are sampled and counted.")
 LEVEL_NOTE = "Schedules sampled with seeded yield injection; distinct interleaving signatures are reported, not all are explored."
@@ -44,7 +48,7 @@ UNSOL_BASE = 0x70000000
 class Peer:
     """Scripted remote entity: parses outbound frames incrementally and answers according to a policy."""
 
-    def __init__(self, rig, rng, policy, t3):
+    def __init__(self, rig, rng, policy, t3, avoid=None):
         self.rig = rig
         self.rng = rng
         self.policy = policy
@@ -63,6 +67,11 @@ class Peer:
         self.peer_requests = []   # systems of W primaries (S1F1) the application answers with send_response
         self.app_replies = []     # systems of the S1F2 the endpoint sent
         self.special = [0, 1, 0x7FFFFFFF, 0x80000000, 0xFFFFFFFF, 0xFFFFFFFE]   # boundary transaction ids, each used once
+        if avoid is not None:
+            # E5 asks for distinct system bytes among the open transactions of *one* originator; this workload does not
+            # produce a peer request that carries the id of a request the endpoint has outstanding at the same moment
+            # (outside the statement's quantifier), so boundary ids the steered counter is about to use are left out
+            self.special = [s for s in self.special if (s - avoid) % 2 ** 32 > 600]
         rng.shuffle(self.special)
         self.unsol_seq = itertools.count(0)
         self.link_lock = threading.Lock()   # serialises injections with the harness closing the link
@@ -206,7 +215,12 @@ def _history(ctx, inj, idx):
     rng = ctx.rng
     policy = rng.choice(["immediate", "reverse", "random", "drop", "late", "twice"])
     t3 = 0.2 if policy in ("late", "drop") else 6.0
-    rig = Rig(active=False, t3=t3)
+    # the start value of the transaction counter is an input: close to the 32-bit wrap or a carry in part of the histories
+    start = steer.pick(rng) if rng.random() < 0.4 else None
+    with steer.start_at(start) if start is not None else contextlib.nullcontext([0]) as hits:
+        rig = Rig(active=False, t3=t3)
+    if start is not None:
+        ctx.count("counter_start.steered_near_wrap_or_carry" if hits[0] else "counter_start.not_steerable")
     _history.last_rig = rig
     def app_callback(rec):
         if (rec["stream"], rec["function"], rec["wbit"]) == (1, 1, True):
@@ -217,7 +231,7 @@ def _history(ctx, inj, idx):
     if not rig.connect_and_select():
         ctx.violation("cannot-select", {"state": rig.state})
         return
-    peer = Peer(rig, rng, policy, t3)
+    peer = Peer(rig, rng, policy, t3, avoid=start)
     nthreads = rng.randint(2, 8)
     nreq = rng.randint(1, 6 if policy not in ("late", "drop") else 3)
     cycles = rng.choice([1, 1, 2, 3, 5]) if policy not in ("late",) else 1
@@ -528,7 +542,11 @@ def _secsi_history(ctx, inj, idx):
     host = rng.random() < 0.5
     policy = rng.choice(["in-order", "reversed", "shuffled", "blocks-interleaved", "blocks-interleaved", "drop-some"])
     t3 = 3.0 if policy == "drop-some" else 20.0
-    rig = SecsIRig(device_type=secsgem.common.DeviceType.HOST if host else secsgem.common.DeviceType.EQUIPMENT, t3=t3)
+    start = steer.pick(rng) if rng.random() < 0.4 else None
+    with steer.start_at(start) if start is not None else contextlib.nullcontext([0]) as hits:
+        rig = SecsIRig(device_type=secsgem.common.DeviceType.HOST if host else secsgem.common.DeviceType.EQUIPMENT, t3=t3)
+    if start is not None:
+        ctx.count("secsi.counter_start.steered_near_wrap_or_carry" if hits[0] else "secsi.counter_start.not_steerable")
     peer = LinePeer(rig)
     in_callback = [0]
     max_in_callback = [0]
